@@ -23,7 +23,7 @@ TABLE = {
         "theorems": ["AcqVerif.C08.camera_stopped_once_per_start", "AcqVerif.C08.camera_started_only_when_armed", "AcqVerif.C08.camera_used_only_while_running",
                      "AcqVerif.C08.running_device_has_a_worker", "AcqVerif.C08.running_only_while_workers_alive", "AcqVerif.C08.not_running_after_workers_exit",
                      "AcqVerif.C08.unconfigured_stream_untouched", "AcqVerif.C08.start_while_running_refused"],
-        "classes": ["api", "restart", "two", "camfault"],
+        "classes": ["api", "switchfail", "restart", "two", "camfault"],
         "kinds": ("device-", "state-", "still-running-after", "never-returns", "CRASH"),
         "what": "every device is opened/closed once, started only when armed, stopped once per start, used only between start and stop; "
                 "Running reported only while workers are alive",
